@@ -4,6 +4,7 @@ import (
 	"bytes"
 	"encoding/hex"
 	"encoding/json"
+	"errors"
 	"fmt"
 	"net"
 	"os"
@@ -15,6 +16,7 @@ import (
 	"unsafe"
 
 	"github.com/v-byte-cpu/sx/command"
+	sxip "github.com/v-byte-cpu/sx/pkg/ip"
 )
 
 // Entries 2 and 3: run the REAL `sx arp` / `sx icmp` command inside the namespace for a single host
@@ -234,6 +236,9 @@ func runCmdMode() {
 	res := cmdResult{Err: command.VerifC17ErrClass(err)}
 	if err != nil {
 		res.Text = err.Error()
+		if errors.Is(err, sxip.ErrInvalidAddr) {
+			res.Err = "badtarget"
+		}
 	}
 	b, _ := json.Marshal(res)
 	realStdout.Write(append(b, '\n'))
@@ -292,8 +297,8 @@ func runWire(o CaseOut, argv []string, ifs []IfaceOut, cacheFile string) CaseOut
 			return o
 		}
 	}
-	if tip == nil {
-		o.Err, o.ErrText = "wire-skip", "not an IPv4 host target"
+	if tip == nil && !o.DstRefused {
+		o.Err, o.ErrText = "wire-skip", "not a single host target"
 		return o
 	}
 	fd, err := openCapture()
